@@ -721,7 +721,8 @@ func runCheck(spec *PropSpec, tier string, seed int, accept, verbose bool, overl
 		trusted = append(trusted, "assumed contract: "+a)
 	}
 	sort.Strings(trusted)
-	trusted = append(trusted, "go/ssa builder (x/tools v0.50.0) and the gowp encoding of Go semantics (DESIGN §2.4)")
+	trusted = append(trusted, "go/ssa builder (x/tools v0.50.0) and the gowp encoding of Go semantics (DESIGN §2, Program semantics)")
+	trusted = append(trusted, "engine facts about the Go memory model used beyond plain loads and stores: the content of append(a, b...) on byte slices is the content of a followed by that of b; the content of the full slice h[:] of a named byte array with a declared bytesOf<Type> function is that function of the array value; an empty slice has the empty content; the cell of a variable captured by a function literal exists; an enclosing variable a function literal does not capture is an unconstrained value in that literal's contract")
 	trusted = append(trusted, spec.Notes...)
 	level := spec.Level
 	if level == "" {
